@@ -53,6 +53,7 @@ type Engine struct {
 	funcs         map[string]*ssa.Function
 	workDir       string
 	timeoutMs     int
+	retryMs       int // per-obligation cap of the single-obligation second opinions (>= timeoutMs)
 	thorough      bool
 	mu            sync.Mutex
 	repoDir       string
@@ -497,8 +498,16 @@ var solvers = []solverSpec{
 }
 
 func (e *Engine) runSolver(sv solverSpec, script string, tag string, wall time.Duration) (string, error) {
+	return e.runSolverT(sv, script, tag, wall, e.timeoutMs)
+}
+
+func (e *Engine) runSolverT(sv solverSpec, script string, tag string, wall time.Duration, ms int) (string, error) {
+	return e.runSolverCtx(context.Background(), sv, script, tag, wall, ms)
+}
+
+func (e *Engine) runSolverCtx(parent context.Context, sv solverSpec, script string, tag string, wall time.Duration, ms int) (string, error) {
 	file := filepath.Join(e.workDir, tag+".smt2")
-	body := sv.pre(e.timeoutMs) + script
+	body := sv.pre(ms) + script
 	if sv.name == "cvc5-1.0" {
 		// cvc5 wants produce-models before set-logic: already the case in prelude
 		body = script
@@ -506,9 +515,9 @@ func (e *Engine) runSolver(sv solverSpec, script string, tag string, wall time.D
 	if err := os.WriteFile(file, []byte(body), 0o644); err != nil {
 		return "", err
 	}
-	ctx, cancel := context.WithTimeout(context.Background(), wall)
+	ctx, cancel := context.WithTimeout(parent, wall)
 	defer cancel()
-	args := sv.args(file, e.timeoutMs)
+	args := sv.args(file, ms)
 	cmd := exec.CommandContext(ctx, args[0], args[1:]...)
 	var out bytes.Buffer
 	cmd.Stdout = &out
@@ -682,6 +691,16 @@ func (e *Engine) secondOpinion(fc *FnCtx, o *Obligation, tag string, ri int) {
 		outs := make([]string, len(solvers))
 		durs := make([]float64, len(solvers))
 		var swg sync.WaitGroup
+		// as soon as one back end gives a decisive answer the others are stopped
+		rctx, rcancel := context.WithCancel(context.Background())
+		defer rcancel()
+		decisive := func(out string) bool {
+			r := parseResults(out, 1)[0]
+			if o.Cover {
+				return r == "sat" || r == "unsat"
+			}
+			return r == "sat" || (r == "unsat" && first != "sat")
+		}
 		for si, sv := range solvers {
 			swg.Add(1)
 			go func(si int, sv solverSpec) {
@@ -692,11 +711,22 @@ func (e *Engine) secondOpinion(fc *FnCtx, o *Obligation, tag string, ri int) {
 					tg = fmt.Sprintf("%s_dbg%d_%s", tag, tagID(o.Name), sv.name)
 					fmt.Printf("debug: %s -> %s/%s.smt2\n", o.Name, e.workDir, tg)
 				}
-				out, _ := e.runSolver(sv, s2, tg, time.Duration(e.timeoutMs+5000)*time.Millisecond)
+				rms := e.retryMs
+				if rms < e.timeoutMs {
+					rms = e.timeoutMs
+				}
+				if o.Candidate {
+					// automatic invariant candidates are dropped when they do not prove quickly
+					rms = e.timeoutMs / 2
+				}
+				out, _ := e.runSolverCtx(rctx, sv, s2, tg, time.Duration(rms+5000)*time.Millisecond, rms)
 				if e.debug != "" && strings.Contains(o.Name, e.debug) {
 					os.WriteFile(e.workDir+"/"+tg+".out", []byte(out), 0o644)
 				}
 				outs[si], durs[si] = out, time.Since(t1).Seconds()
+				if decisive(out) {
+					rcancel()
+				}
 			}(si, sv)
 		}
 		swg.Wait()
